@@ -334,14 +334,24 @@ def writeFrame (animated : Bool) (f : MuxFrame) : Bytes :=
     let bitstream := (splitAlphaAndBitstream f.data).2
     optChunk ccALPH alphaData ++ writeDataChunk (detectBitstreamType bitstream) bitstream
 
-/-- mux.go assembleExtended -/
-def assembleExtended (s : MuxState) : R Bytes :=
+/-- the `anmf64 > MaxChunkPayload` check in the size loop of assembleExtended (commit 03d14c3): some
+    animation frame's ANMF payload (bounded by 16 + 2·8 + |alpha| + |bitstream| + 2) does not fit a
+    chunk size field -/
+def anmfTooLarge (s : MuxState) : Bool :=
+  isAnimated s && s.frames.any fun f =>
+    decide (anmfChunkSize + 2 * chunkHeaderSize + (((splitAlphaAndBitstream f.data).1).getD []).length +
+      (splitAlphaAndBitstream f.data).2.length + 2 > 4294967286)
+
+/-- mux.go assembleExtended; `sizeFix` = commit 03d14c3 is present (ANMF size check, and the total is
+    compared with MaxChunkPayload instead of MaxUint32) -/
+def assembleExtendedWith (sizeFix : Bool) (s : MuxState) : R Bytes :=
   let animated := isAnimated s
   let flags := vp8xFlags s
   let canvasW := (canvasSize s).1
   let canvasH := (canvasSize s).2
   let total := riffPayload64 s
-  if total > 4294967295 then .err .other
+  if sizeFix ∧ anmfTooLarge s = true then .err .other
+  else if total > (if sizeFix then 4294967286 else 4294967295) then .err .other
   else
     .ok (putLE32 ccRIFF ++ putLE32 (u32 total) ++ putLE32 ccWEBP ++
          (writeChunkHeader ccVP8X vp8xChunkSize ++ [UInt8.ofNat flags, 0, 0, 0] ++
@@ -354,17 +364,18 @@ def assembleExtended (s : MuxState) : R Bytes :=
          (s.frames.map (writeFrame animated)).flatten ++
          optChunk ccEXIF s.exifData ++ optChunk ccXMP s.xmpData)
 
+def assembleExtended := assembleExtendedWith true
+
 /-- mux.go (*Muxer).Assemble -/
 def assemble (s : MuxState) : R Bytes := do
   validate s
   if !needsVP8X s then assembleSimple s else assembleExtended s
 
-/-- `Assemble` as it was at 9b3d913, before the repairs 217045d / 73510c8 / dac085e / b6500d8 / faa5452
+/-- `Assemble` as it was at 9b3d913, before the repairs 217045d / 73510c8 / dac085e / b6500d8 / faa5452 / 03d14c3
     (pinned variant, used only by
-    the counterexample theorems of C14).  `assembleExtended` calls `isAnimated`, `canvasSize`, … but
-    not `needsVP8X`/`validate`, so it is shared. -/
+    the counterexample theorems of C14).  `assembleExtendedWith false` is the extended writer without the size checks of 03d14c3. -/
 def assemblePinned (s : MuxState) : R Bytes := do
   validateWith false false false s
-  if !needsVP8XPinned s then assembleSimple s else assembleExtended s
+  if !needsVP8XPinned s then assembleSimple s else assembleExtendedWith false s
 
 end Webp.Impl.Mux
